@@ -22,8 +22,10 @@
 EXTENDS Provision, Json, IOUtils, Sequences
 
 Rec == ndJsonDeserialize(IOEnv.TRACE)
-VARIABLES l, viol, runid, tino     \* tino: inode of status.tag at the reader's previous look (0: none)
-tvars == <<vars, l, viol, runid, tino>>
+VARIABLES l, viol, runid,
+          tino,     \* inode of status.tag at the reader's previous look (0: none)
+          tsAt      \* clock at which the deadline handler last started
+tvars == <<vars, l, viol, runid, tino, tsAt>>
 
 SetOf(seq) == {seq[k] : k \in 1..Len(seq)}
 TagOf(r) == [k |-> r.k, n |-> SetOf(r.n)]
@@ -33,7 +35,8 @@ P_FinishedOnlyAfter == FinishedOnlyAfter
 P_QueryTruthPos == QueryTruthPos
 P_QueryTruthZero == \A i \in 1..NQ : qs[i].pc = "done" /\ qs[i].q = 0 => QueryTruthAt(0, qs[i].finished, qs[i].lat)
 P_QueryComplete == QueryComplete
-P_ErrorText == \A i \in 1..NQ : qs[i].pc = "done" => qs[i].names = All \ qs[i].fl
+\* the subsystems named are exactly those whose last report, at the instant of the state read, was not "ready"
+P_ErrorText == \A i \in 1..NQ : qs[i].pc = "done" => qs[i].names = All \ qs[i].rep
 P_TagAtomic == TagAtomic
 Failing == {n \in {"FinishedOnlyAfter", "QueryTruthPos", "QueryTruthZero", "QueryComplete", "ErrorText", "TagAtomic"} :
               CASE n = "FinishedOnlyAfter" -> ~P_FinishedOnlyAfter
@@ -43,7 +46,7 @@ Failing == {n \in {"FinishedOnlyAfter", "QueryTruthPos", "QueryTruthZero", "Quer
                 [] n = "ErrorText"         -> ~P_ErrorText
                 [] n = "TagAtomic"         -> ~P_TagAtomic}
 
-TInit == Init /\ l = 1 /\ viol = {} /\ runid = "-" /\ tino = 0
+TInit == Init /\ l = 1 /\ viol = {} /\ runid = "-" /\ tino = 0 /\ tsAt = 0
 
 Verdict == PrintT(<<"VERDICT", ToJson([run |-> runid, viol |-> viol \cup Failing])>>)
 
@@ -56,7 +59,7 @@ TRun == /\ l <= Len(Rec) /\ Rec[l].e \in {"run", "end"}
         /\ reported' = {} /\ everAllReady' = FALSE /\ timeupFired' = FALSE
         /\ allReadyAt' = 0 /\ timeupAt' = 0 /\ owed' = 0 /\ written' = {}
         /\ viol' = {} /\ runid' = IF Rec[l].e = "run" THEN Rec[l].id ELSE "-"
-        /\ l' = l + 1 /\ tino' = 0
+        /\ l' = l + 1 /\ tino' = 0 /\ tsAt' = 0
         /\ UNCHANGED <<kkLeft, rdLeft, latchLeft, fd, last>>
 
 TTick == /\ l <= Len(Rec) /\ Rec[l].e = "tick"
@@ -64,7 +67,7 @@ TTick == /\ l <= Len(Rec) /\ Rec[l].e = "tick"
          /\ Ghost(flags, clock + 1)
          /\ viol' = viol \cup Failing /\ l' = l + 1
          /\ UNCHANGED <<flags, fin, latch, wpc, wloc, kkLeft, rdLeft, latchLeft, qs, tmpF, tagF, fd, reported,
-                        timeupFired, timeupAt, owed, written, last, runid, tino>>
+                        timeupFired, timeupAt, owed, written, last, runid, tino, tsAt>>
 
 TObs == /\ l <= Len(Rec) /\ Rec[l].e = "tagobs"
         /\ tagF' = TagOf(Rec[l].tag)
@@ -73,21 +76,28 @@ TObs == /\ l <= Len(Rec) /\ Rec[l].e = "tagobs"
                    (IF tino # 0 /\ Rec[l].ino = tino /\ TagOf(Rec[l].tag) # tagF THEN {"TagRenameOnly"} ELSE {})
         /\ l' = l + 1
         /\ UNCHANGED <<flags, fin, clock, latch, wpc, wloc, kkLeft, rdLeft, latchLeft, qs, tmpF, fd, reported,
-                       everAllReady, timeupFired, allReadyAt, timeupAt, owed, written, last, runid>>
+                       everAllReady, timeupFired, allReadyAt, timeupAt, owed, written, last, runid, tsAt>>
 
 TStep ==
   /\ l <= Len(Rec) /\ Rec[l].e = "step"
   /\ LET r == Rec[l]
          f2 == SetOf(r.flags)
          inReset == KKInReset
-     IN /\ flags' = f2 /\ reported' = f2 /\ fin' = r.fin /\ latch' = r.latch
+         \* what the subsystems last reported, from the calls made (not from the implementation's flags)
+         rep2 == CASE r.a = "upd" -> reported \cup {r.x}
+                   [] r.a = "reset" -> reported \ {r.x}
+                   [] OTHER -> reported
+     IN /\ flags' = f2 /\ reported' = rep2 /\ fin' = r.fin /\ latch' = r.latch
         /\ tagF' = TagOf(r.tag)
-        /\ Ghost(f2, clock)
+        /\ Ghost(rep2, clock)
+        /\ tsAt' = IF r.a = "tstate" THEN clock ELSE tsAt
         /\ timeupFired' = (timeupFired \/ r.a = "tstate")
         /\ timeupAt' = IF r.a = "setfin" /\ r.x = "T" THEN clock ELSE timeupAt
         /\ owed' = CASE r.a = "reset" -> 0
                      [] r.a = "setfin" /\ r.x = "R" -> 0
                      [] r.a = "setfin" /\ ~inReset -> clock
+                     \* the deadline handler got as far as writing the status files: the deadline has passed
+                     [] r.a = "wstate" /\ r.x = "T" /\ owed = 0 -> tsAt
                      [] OTHER -> owed
         \* only the key keeper's reset bracket is tracked of the implementation's control state
         /\ wpc' = CASE r.a = "reset" -> [wpc EXCEPT !["kk"] = "setfin"]
@@ -99,7 +109,7 @@ TStep ==
         \* a writer's complete message names the subsystems not ready when it read the state
         /\ written' = IF r.a = "wstate" THEN written \cup {All \ f2} ELSE written
         /\ qs' = CASE r.a = "qfin"   -> [qs EXCEPT ![r.i] = [QIdle EXCEPT !.pc = "qstate", !.q = r.q, !.owed0 = owed]]
-                   [] r.a = "qstate" -> [qs EXCEPT ![r.i].pc = "qchan", ![r.i].fl = f2]
+                   [] r.a = "qstate" -> [qs EXCEPT ![r.i].pc = "qchan", ![r.i].fl = f2, ![r.i].rep = rep2]
                    [] r.a = "qchan"  -> [qs EXCEPT ![r.i].pc = "done", ![r.i].finished = r.finished,
                                                    ![r.i].names = SetOf(r.names), ![r.i].lat = r.lat]
                    [] OTHER -> qs
